@@ -23,6 +23,30 @@ def run_child(name, repo, *args, timeout=600):
         return {"name": name, "ok": False, "detail": repr(e), "crash": True}
 
 
+def run_children(name, repo, seed, n, procs=8, timeout=900):
+    """the same bounded check split over `procs` processes with different seeds; results merged"""
+    import concurrent.futures as cf
+    per = max(1, n // procs)
+    with cf.ThreadPoolExecutor(max_workers=procs) as ex:
+        outs = list(ex.map(lambda i: run_child(name, repo, seed * 1000 + i, per, timeout=timeout), range(procs)))
+    crashed = [o for o in outs if o.get("crash")]
+    if crashed:
+        return crashed[0]
+    merged = dict(outs[0])
+    merged["ok"] = all(o["ok"] for o in outs)
+    merged["cases"] = sum(o.get("cases", 0) for o in outs)
+    kinds = {}
+    for o in outs:
+        for k, v in (o.get("kinds") or {}).items():
+            kinds[k] = kinds.get(k, 0) + v
+    merged["kinds"] = kinds
+    merged["finding_kinds"] = sorted(kinds)
+    merged["witness"] = [w for o in outs for w in (o.get("witness") or [])][:3]
+    merged["bounded"] = f"{procs} x ({outs[0].get('bounded')})"
+    merged["detail"] = outs[0].get("detail") if merged["ok"] else str(kinds)
+    return merged
+
+
 # ------------------------------------------------------------------------------------------------
 def dag_iteration_exhaustive(repo, max_nodes=6):
     """C01(c): every DAG on up to `max_nodes` nodes (parents chosen among earlier nodes, every subset),
@@ -804,3 +828,75 @@ def generator_shape(repo, seed=0, n=40):
 
 
 CHILDREN.update({"generator_shape": generator_shape})
+
+
+# ------------------------------------------------------------------------------------------------
+def config_sweep(repo, seed=0, n=120):
+    """C08 bounded: the real run_simulator over random valid configurations with every shipped scheduler (naive, priority,
+    priority-pool on two pools, overbook with overcommit, and the starter scheduler written by `eudoxia init`): the run must
+    reach its last tick and return statistics without raising."""
+    import random, traceback
+    sys.path.insert(0, repo)
+    logging.disable(logging.CRITICAL)
+    import eudoxia.simulator as sim
+    import eudoxia.__main__ as em
+    from eudoxia.workload.pipeline import Pipeline, Segment
+    from eudoxia.utils import Priority
+    sys.path.insert(0, HERE)
+    from pyvc.native_scenarios import mk_pipeline
+    ns = {"Pipeline": Pipeline, "Segment": Segment, "Priority": Priority}
+    exec(compile(em.SCHEDULER_TEMPLATE.format(scheduler_name="starter"), "<starter>", "exec"), {"__name__": "starter"})
+    rng = random.Random(seed)
+    problems, runs = [], 0
+    triples = [(0.3, 0.1, 0.6), (0, 0, 1), (0, 1, 0), (1, 0, 0), (0.06, 0.57, 0.37), (0.1, 0.2, 0.7), (1 / 3, 1 / 3, 1 / 3), (0.5, 0.5, 0.0)]
+
+    class ListWorkload:
+        def __init__(self, by_tick):
+            self.by_tick, self.t = by_tick, -1
+        def run_one_tick(self):
+            self.t += 1
+            return self.by_tick.get(self.t, [])
+
+    for case in range(n):
+        algo = rng.choice(["naive", "priority", "priority-pool", "overbook", "starter"])
+        tps = rng.choice([1, 2, 10, 100, 1000, 100000])
+        duration = rng.choice([0.0004, 0.5, 2, 15, 90]) if tps <= 1000 else rng.choice([0.000004, 0.001, 0.02])
+        ip, qp, bp = rng.choice(triples)
+        multi = rng.random() < 0.5
+        params = dict(duration=duration, ticks_per_second=tps, scheduler_algo=algo, num_pools=2 if algo == "priority-pool" else rng.choice([1, 2, 4]),
+                      cpus_per_pool=rng.choice([1, 2, 8, 64]), ram_gb_per_pool=rng.choice([0.5, 4, 32, 256]), multi_operator_containers=multi,
+                      allow_memory_overcommit=True if algo == "overbook" else rng.random() < 0.2, random_seed=rng.randint(0, 10**6),
+                      interactive_prob=ip, query_prob=qp, batch_prob=bp, waiting_seconds_mean=rng.choice([0.001, 0.3, 2.0]),
+                      num_pipelines=rng.choice([1, 4]), num_operators=rng.choice([1, 3, 8]), cpu_io_ratio=rng.choice([0, 0.5, 1]))
+        workload = None
+        if rng.random() < 0.4:
+            max_ticks = int(duration * tps)
+            by_tick, r2 = {}, random.Random(rng.randint(0, 10**6))
+            for j in range(r2.randint(1, 8)):
+                p, _ops = mk_pipeline(ns, r2, f"s{case}_{j}", zero_ok=True)
+                p._runtime_status = None
+                by_tick.setdefault(r2.randint(0, max(0, max_ticks - 1)), []).append(p)
+            workload = ListWorkload(by_tick)
+        runs += 1
+        try:
+            stats = sim.run_simulator(dict(params), workload=workload)
+            stats.to_dict()
+        except Exception as e:
+            tb = traceback.format_exc().strip().splitlines()
+            kind = "raised:" + type(e).__name__
+            if algo == "priority-pool" and not multi and "exactly 1 operator" in str(e):
+                kind = "priority-pool-single-operator-mode"
+            problems.append({"kind": kind, "case": case, "params": params, "hand_built_workload": workload is not None,
+                             "error": repr(e)[:200], "where": tb[-3:-1]})
+    kinds = {}
+    for pb in problems:
+        kinds[pb["kind"]] = kinds.get(pb["kind"], 0) + 1
+    first = {}
+    for pb in problems:
+        first.setdefault(pb["kind"], pb)
+    return {"name": "bounded:config-sweep", "ok": not problems, "bounded": f"{n} random valid configurations over 5 schedulers",
+            "cases": runs, "kinds": kinds, "finding_kinds": sorted(kinds), "witness": list(first.values())[:3],
+            "detail": "every run reached its last tick" if not problems else str(kinds)}
+
+
+CHILDREN.update({"config_sweep": config_sweep})
